@@ -31,7 +31,11 @@ RULE = (
     "back-to-back filler messages so that they are handled a chosen number of loop iterations into their arrival "
     "instant, and a dedicated profile has the peer's OFFLINE status handled 0..9 iterations / 0..5 ms after the call "
     "on its INITIALIZING upload or download started (connect in progress, reply pending, file removal with slow "
-    "file-system calls), optionally ONLINE again later + 200 s of virtual time afterwards. "
+    "file-system calls), optionally ONLINE again later; a call may be a sequence on the same transfer (pause awaited, "
+    "0..4 s later abort or remove; abort then remove: nothing may happen in between, activity is judged from the first "
+    "return, frozen fields from the last), and configuration changes of the user that run the shares-changed "
+    "management cycle (friend added, another user blocked, rescan, shared-directory update) are generated inside the "
+    "observation window after the call(s) + 200 s of virtual time afterwards. "
     "Oracle, per stopped transfer, after the call returned at T: (1) no PeerTransferQueue / PeerTransferRequest / "
     "PeerPlaceInQueueRequest / PeerUploadFailed naming the file, no PeerTransferReply(allowed) and no file-connection "
     "ticket of that transfer arrives at a scripted endpoint later than T + link latency (refusals answering a request "
@@ -71,6 +75,8 @@ LAT = 0.001
 EPS = 1e-7
 HORIZON = 200.0
 OPS = ['abort', 'pause', 'remove']
+TRIGGER_KINDS = ('status', 'adduser', 'add', 'friend', 'block', 'rescan', 'sharedir')
+STIMULI = ['friend', 'block', 'rescan', 'sharedir']
 DIRECT = ['accept', 'refuse', 'hang', 'reset']
 INDIRECT = ['pierce', 'cannot', 'silent']
 NEG_ROUTINES = {
@@ -212,21 +218,34 @@ def case_strategy(draw, focus=None):
         if ops and draw(st.booleans()):
             # "stop them all": the second call is issued in the same instant as the first (or 1 ms later)
             at = ops[0]['at'] + draw(st.sampled_from([0, 0, 0, 1]))
-        ops.append({'peer': pi, 'xfer': xi, 'op': draw(st.sampled_from(OPS)), 'at': max(0, at),
-                    'steps': draw(st.sampled_from([0, 0, 1, 2, 3, 4, 6]))})
+        op = draw(st.sampled_from(OPS))
+        then = None
+        if op == 'pause':
+            then = draw(st.sampled_from([None, None, 'abort', 'remove']))
+        elif op == 'abort':
+            then = draw(st.sampled_from([None, None, None, 'remove']))
+        ops.append({'peer': pi, 'xfer': xi, 'op': op, 'at': max(0, at),
+                    'steps': draw(st.sampled_from([0, 0, 1, 2, 3, 4, 6])), 'then': then,
+                    'gap': draw(st.sampled_from([0, 1, 60, 1000, 4000])) if then else 0,
+                    'steps2': draw(st.sampled_from([0, 0, 1, 3])) if then else 0})
     first_op = min(o['at'] for o in ops)
     ntrig = draw(st.integers(0, 6))
     trig = []
     for _ in range(ntrig):
-        kind = draw(st.sampled_from(['status', 'status', 'status', 'adduser', 'add']))
+        kind = draw(st.sampled_from(['status', 'status', 'status', 'status', 'adduser', 'add', 'add', 'stimulus']))
         where = draw(st.integers(0, 7))
+        if kind == 'stimulus':
+            # configuration change of the user (shares-changed cycle), mostly after the call(s)
+            kind = draw(st.sampled_from(STIMULI))
+            where = draw(st.sampled_from([3, 7, 7, 7]))
         if where == 0:
             # the message (1 ms latency) is handled in the instant of a user call
             at = max(0, draw(st.sampled_from(ops))['at'] - draw(st.sampled_from([1, 1, 1, 0, 2])))
         elif where < 6:
             at = draw(st.integers(0, max(1, first_op)))
         else:
-            at = draw(st.integers(0, first_op + 8000))
+            at = draw(st.integers(0, first_op + 8000)) if kind not in STIMULI else \
+                max(o['at'] + o['gap'] for o in ops) + draw(st.integers(0, 8000))
         user = draw(st.integers(0, npeers))          # npeers = the unrelated user
         status = draw(st.sampled_from([2, 2, 1, 1, 0]))
         # filler messages in front: the trigger is handled `pad` loop iterations into its arrival instant
@@ -298,6 +317,60 @@ def offline_case(draw):
             'exec_ms': draw(st.sampled_from([0, 1, 3, 5])), 'peers': peers, 'triggers': trig, 'ops': ops}
 
 
+@st.composite
+def sequence_case(draw):
+    """Call sequences on one transfer (pause awaited, later abort / remove; abort then remove) from QUEUED, INITIALIZING
+    and mid-file, followed inside the observation window by configuration changes of the user that make the transfer
+    manager re-evaluate its uploads (friend list, block list of another user, rescan, shared-directory update)."""
+    role = draw(st.sampled_from(['D', 'D', 'D', 'U']))
+    p = draw(_peer(role, slow_bias=True))
+    variant = draw(st.sampled_from(['connect', 'reply', 'mid', 'queued']))
+    n = 2 if variant == 'queued' else draw(st.sampled_from([1, 1, 2]))
+    p['xfers'] = [{'at': draw(st.sampled_from([0, 0, 40])), 'size': draw(st.integers(6000, 30000))} for _ in range(n)]
+    p['indirect'] = draw(st.sampled_from(['silent', 'cannot', 'pierce']))
+    kbps = 0
+    if role == 'D':
+        if variant in ('connect', 'queued'):
+            p.update({'drop_link': True, 'direct': 'accept', 'direct_ms': draw(st.sampled_from([3000, 6000, 9000])),
+                      'silent': False, 'allow': True, 'reply_ms': 2, 'offset_ms': 2})
+            lo, hi = 120, p['direct_ms'] - 100
+        elif variant == 'reply':
+            p.update({'drop_link': False, 'silent': draw(st.booleans()), 'allow': True,
+                      'reply_ms': draw(st.sampled_from([6000, 9000, 29000]))})
+            lo, hi = 120, 5500
+        else:
+            p.update({'drop_link': draw(st.booleans()), 'direct': 'accept', 'direct_ms': draw(st.sampled_from([2, 30])),
+                      'silent': False, 'allow': True, 'reply_ms': 2, 'offset_ms': 2})
+            kbps = draw(st.sampled_from([1, 2, 4]))
+            lo, hi = 300, 1500
+        xi = (n - 1) if variant == 'queued' else 0      # the second upload of a user waits in the queue
+    else:
+        p.update({'direct': 'accept', 'direct_ms': draw(st.sampled_from([2, 3000, 6000])), 'auto_start': True,
+                  'start_ms': draw(st.sampled_from([5, 500])), 'fileconn_ms': draw(st.sampled_from([5, 3000, 9000])),
+                  'fault': draw(st.sampled_from([None, 'stall'])), 'fault_k': draw(st.integers(1, 3000)),
+                  'drop_link': False})
+        lo, hi = 60, p['direct_ms'] + p['start_ms'] + p['fileconn_ms'] + 500
+        xi = draw(st.integers(0, n - 1))
+    peers = [p]
+    if draw(st.integers(0, 3)) == 0:
+        peers.append(draw(_peer(draw(st.sampled_from(['U', 'D'])), slow_bias=draw(st.booleans()))))
+    at = draw(st.integers(lo, max(lo, hi)))
+    first = draw(st.sampled_from(['pause', 'pause', 'pause', 'abort']))
+    then = draw(st.sampled_from(['abort', 'abort', 'remove'])) if first == 'pause' else 'remove'
+    gap = draw(st.sampled_from([0, 1, 60, 1000, 4000]))
+    ops = [{'peer': 0, 'xfer': xi, 'op': first, 'at': at, 'steps': draw(st.sampled_from([0, 0, 1, 3])), 'then': then,
+            'gap': gap, 'steps2': draw(st.sampled_from([0, 0, 1, 3]))}]
+    trig = []
+    for _ in range(draw(st.integers(1, 3))):
+        trig.append({'at': at + gap + draw(st.sampled_from([1, 200, 1500, 5000]) | st.integers(0, 9000)),
+                     'kind': draw(st.sampled_from(STIMULI)), 'user': len(peers), 'status': 2, 'pad': 0})
+    for _ in range(draw(st.integers(0, 2))):
+        trig.append({'at': draw(st.integers(0, at + gap + 6000)), 'kind': draw(st.sampled_from(['status', 'adduser', 'add'])),
+                     'user': draw(st.integers(0, len(peers))), 'status': draw(st.sampled_from([2, 2, 1])), 'pad': 0})
+    return {'mode': draw(st.sampled_from(['fallback', 'race'])), 'up_kbps': kbps, 'down_kbps': 0,
+            'exec_ms': draw(st.sampled_from([0, 0, 1, 3])), 'peers': peers, 'triggers': trig, 'ops': ops}
+
+
 # ---------------------------------------------------------------------------
 # sanitising (run_case is total: shrunk documents are clamped into the generator's domain)
 
@@ -360,7 +433,9 @@ def _sanitise(case):
             continue
         seen.add((pi, xi))
         ops.append({'peer': pi, 'xfer': xi, 'op': o.get('op') if o.get('op') in OPS else 'abort',
-                    'at': _int(o.get('at'), 0, 80000, 0), 'steps': _int(o.get('steps'), 0, 8, 0)})
+                    'at': _int(o.get('at'), 0, 80000, 0), 'steps': _int(o.get('steps'), 0, 8, 0),
+                    'then': o.get('then') if o.get('then') in ('abort', 'remove') else None,
+                    'gap': _int(o.get('gap'), 0, 20000, 0), 'steps2': _int(o.get('steps2'), 0, 8, 0)})
     if not ops:
         return None
     trig = []
@@ -368,7 +443,7 @@ def _sanitise(case):
         if not isinstance(t, dict):
             continue
         trig.append({'at': _int(t.get('at'), 0, 90000, 0),
-                     'kind': t.get('kind') if t.get('kind') in ('status', 'adduser', 'add') else 'status',
+                     'kind': t.get('kind') if t.get('kind') in TRIGGER_KINDS else 'status',
                      'user': _int(t.get('user'), 0, 10 ** 6, 0) % (len(peers) + 1),
                      'status': _int(t.get('status'), 0, 2, 2), 'pad': _int(t.get('pad'), 0, 12, 0)})
     return {'mode': 'race' if case.get('mode') == 'race' else 'fallback',
@@ -465,6 +540,7 @@ def _run(c, res, tmp):
     from aioslsk.protocol import messages as M
     from aioslsk.protocol.primitives import UserStats
     from aioslsk.transfer.model import TransferDirection
+    from aioslsk.user.model import BlockingFlag
 
     peers = c['peers']
     names = ['u%d' % i for i in range(len(peers))]
@@ -641,32 +717,63 @@ def _run(c, res, tmp):
             rec['t_call'] = loop.time()
             rec['neg_index'] = len(reg.neg)
             rec['status'] = 'running'
-            try:
-                if o['op'] == 'abort':
-                    await tm.abort(t)
-                elif o['op'] == 'pause':
-                    await tm.pause(t)
-                else:
-                    await tm.remove(t)
-            except InvalidStateTransition:
-                rec['status'] = 'refused'
-                rec['t_ret'] = loop.time()
-                return
-            except asyncio.CancelledError:
-                raise
-            except Exception as exc:
-                rec['status'] = 'error'
-                rec['error'] = type(exc).__name__ + ': ' + str(exc)[:200]
-                rec['t_ret'] = loop.time()
-                return
+            rec['final_op'] = o['op']
+
+            async def call(kind):
+                try:
+                    if kind == 'abort':
+                        await tm.abort(t)
+                    elif kind == 'pause':
+                        await tm.pause(t)
+                    else:
+                        await tm.remove(t)
+                except InvalidStateTransition:
+                    return 'refused'
+                except asyncio.CancelledError:
+                    raise
+                except Exception as exc:
+                    rec['error'] = type(exc).__name__ + ': ' + str(exc)[:200]
+                    return 'error'
+                return 'returned'
+
+            status = await call(o['op'])
             rec['t_ret'] = loop.time()
+            if status != 'returned':
+                rec['status'] = status
+                return
             rec['status'] = 'returned'
+            rec['t_first'] = rec['t_ret']           # activity is judged from the first return on
             rec['snap'] = _snapshot(t)
             rec['pending_at_return'] = sorted({e['routine'] for e in reg.pending_for(t)})
             rec['started_during_call'] = sorted({e['routine'] for e in reg.neg[rec['neg_index']:]
                                                  if e['transfer'] is t and not e['task'].done()})
             rec['in_manager_at_return'] = any(x is t for x in tm.transfers)
             muted.add((t.username, t.remote_path))
+            if o['then'] and o['op'] != 'remove':
+                # call sequence on the same transfer (pause, later abort / remove): nothing may happen in between and
+                # the frozen-field oracle applies from the return of the last call
+                if o['gap']:
+                    await asyncio.sleep(o['gap'] / 1000.0)
+                if o['steps2']:
+                    await simloop.step(o['steps2'])
+                pre2 = _snapshot(t)
+                rec['between'] = {f: (rec['snap'][f], pre2[f]) for f in FIELDS if rec['snap'][f] != pre2[f]}
+                rec['t_first_snap'] = rec['snap']
+                idx2 = len(reg.neg)
+                status = await call(o['then'])
+                rec['seq'] = o['op'] + '>' + o['then'] + ':' + status
+                if status == 'error':
+                    rec['status'] = 'error'
+                    return
+                if status == 'returned':
+                    rec['final_op'] = o['then']
+                    rec['t_ret'] = loop.time()
+                    rec['snap'] = _snapshot(t)
+                    rec['pending_at_return'] = sorted(set(rec['pending_at_return']) |
+                                                      {e['routine'] for e in reg.pending_for(t)})
+                    rec['started_during_call'] = sorted(set(rec['started_during_call']) | {
+                        e['routine'] for e in reg.neg[idx2:] if e['transfer'] is t and not e['task'].done()})
+                    rec['in_manager_at_return'] = any(x is t for x in tm.transfers)
 
         events = []
         for pi, p in enumerate(peers):
@@ -678,6 +785,8 @@ def _run(c, res, tmp):
             events.append((o['at'], 2, len(events), ('op', o)))
         events.sort(key=lambda e: e[:3])
         op_tasks = []
+        side_tasks = []
+        nstim = [0]
         ghost = 0
         last = 0
         for at, _, _, ev in events:
@@ -704,12 +813,27 @@ def _run(c, res, tmp):
                 user = names[tr['user']] if tr['user'] < len(names) else OTHER
                 # filler messages sent back-to-back before the trigger: the link delivers one queued segment per
                 # loop iteration, so the trigger is handled `pad` iterations later within its arrival instant
-                for _ in range(tr['pad'] if tr['kind'] != 'add' else 0):
+                for _ in range(tr['pad'] if tr['kind'] in ('status', 'adduser') else 0):
                     world.server.send(M.GetUserStats.Response(OTHER, UserStats(1000, 5, 10, 2)))
                 if tr['kind'] == 'status':
                     if tr['status'] == 0:
                         offline_times.setdefault(user, []).append(loop.time())
                     world.server.send(M.GetUserStatus.Response(user, tr['status'], False))
+                elif tr['kind'] in ('friend', 'block', 'rescan', 'sharedir'):
+                    # configuration changes of the user that make the transfer manager re-evaluate its uploads
+                    # (shares-changed management cycle); none of them concerns a scripted peer or a shared file
+                    stim = tr['kind']
+                    if stim == 'sharedir' and not has_d:
+                        stim = 'friend'
+                    nstim[0] += 1
+                    if stim == 'friend':
+                        s.users.friends.add('pal%d' % nstim[0])
+                    elif stim == 'block':
+                        s.users.blocked['foe%d' % nstim[0]] = BlockingFlag.ALL
+                    elif stim == 'rescan':
+                        side_tasks.append(asyncio.ensure_future(client.shares.scan()))
+                    else:
+                        client.shares.update_shared_directory(share)
                 elif tr['kind'] == 'adduser':
                     st_ = tr['status'] or 1        # AddUser never reports a peer offline here
                     world.server.send(M.AddUser.Response(user, exists=True, status=st_,
@@ -721,6 +845,7 @@ def _run(c, res, tmp):
                 o = ev[1]
                 if o['steps']:
                     await simloop.step(o['steps'])
+                last = max(last, at + (o['gap'] if o['then'] else 0))
                 op_tasks.append(asyncio.ensure_future(do_op(o)))
                 await simloop.step(1)
                 check_dups_polled('after:op')
@@ -732,7 +857,7 @@ def _run(c, res, tmp):
         for t in op_tasks:
             if not t.done():
                 t.cancel()
-        await asyncio.gather(*op_tasks, return_exceptions=True)
+        await asyncio.gather(*op_tasks, *side_tasks, return_exceptions=True)
 
         # ---- collect ---------------------------------------------------------
         out['end'] = loop.time()
@@ -836,8 +961,8 @@ def _judge(c, out, res, names, loop_errors):
             res.label('overlap:%s' % ('0' if rec['overlap'] == 0 else ('1' if rec['overlap'] == 1 else '2+')))
         if rec['pending'] and rec['overlap'] >= 1:
             nontrivial = True
-        keys.append([rec['direction'], o['op'], pre['state'], pre['remotely_queued'], rec['pending'], c['mode'],
-                     _reach_class(p), min(rec['overlap'], 3), o['steps']])
+        keys.append([rec['direction'], o['op'], o['then'], pre['state'], pre['remotely_queued'], rec['pending'],
+                     c['mode'], _reach_class(p), min(rec['overlap'], 3), o['steps']])
         if rec['status'] == 'running':
             res.violate(f'C06/call-never-returned:{o["op"]}', f'{o} state before={pre} pending={rec["pending"]}')
             continue
@@ -847,7 +972,12 @@ def _judge(c, out, res, names, loop_errors):
         if rec['status'] != 'returned':
             continue
         tid = id(rec['transfer'])
-        user, path, T = rec['user'], rec['path'], rec['t_ret']
+        # activity (frames, connections, tasks) is judged from the return of the first call of a sequence on, the
+        # frozen fields from the return of the last one
+        user, path, T = rec['user'], rec['path'], rec['t_first']
+        final_op = rec['final_op']
+        if rec.get('seq'):
+            res.label('seq:' + rec['seq'])
         had_dup = sorted({r for (i, r) in out['dup_ids'] if i == tid})
         if had_dup:
             root = f'C06/duplicate-negotiation:{had_dup[0]}>'
@@ -858,7 +988,8 @@ def _judge(c, out, res, names, loop_errors):
         else:
             root = 'C06/'
         ctx = (f'{o["op"]} of {rec["direction"]} {user} {path} called at {rel(rec["t_call"])} (state {pre["state"]}, '
-               f'pending {rec["pending"]}, not in handle {rec["orphans"]}) returned at {rel(T)}; mode={c["mode"]}')
+               f'pending {rec["pending"]}, not in handle {rec["orphans"]}) returned at {rel(T)}'
+               + (f', then {rec["seq"]} at {rel(rec["t_ret"])}' if rec.get('seq') else '') + f'; mode={c["mode"]}')
         if rec['orphans'] and not had_dup:
             res.violate(f'C06/lost-task-handle:{rec["orphans"][0]}',
                         f'a pending negotiation task is no longer referenced by the transfer: {ctx}')
@@ -880,7 +1011,11 @@ def _judge(c, out, res, names, loop_errors):
             res.violate(f'{root}remotely-queued-without-connection',
                         f'remotely_queued is set at return although no connection with {user} ever existed; {ctx}')
 
-        # (3) fields frozen
+        # (3) fields frozen (between the calls of a sequence, and after the last one)
+        for f, (a, b) in sorted(rec.get('between', {}).items()):
+            if f == 'remotely_queued' and b is False and any(t + LAT >= T - EPS for t in out['offline'].get(user, [])):
+                continue
+            res.violate(f'{root}field-changed-after-return:{f}', f'{f}: {a!r} -> {b!r} before the next call; {ctx}')
         fin = out['final'][tid]
         for f in FIELDS:
             if fin[f] != rec['snap'][f]:
@@ -890,10 +1025,10 @@ def _judge(c, out, res, names, loop_errors):
                 res.violate(f'{root}field-changed-after-return:{f}',
                             f'{f}: {rec["snap"][f]!r} -> {fin[f]!r}; {ctx}')
         # expected effect of the call itself
-        want = {'abort': 'ABORTED', 'pause': 'PAUSED'}.get(o['op'])
+        want = {'abort': 'ABORTED', 'pause': 'PAUSED'}.get(final_op)
         if want and rec['snap']['state'] != want:
-            res.violate(f'{root}state-at-return:{o["op"]}:{rec["snap"]["state"]}', ctx)
-        if o['op'] == 'remove' and rec['in_manager_at_return']:
+            res.violate(f'{root}state-at-return:{final_op}:{rec["snap"]["state"]}', ctx)
+        if final_op == 'remove' and rec['in_manager_at_return']:
             res.violate(f'{root}still-in-manager-after-remove', ctx)
 
         # (1) frames naming the file after T + latency
@@ -979,6 +1114,7 @@ def run_shard(ctx):
     ctx.explore(case_strategy(focus='mid'), n // 3, salt=3)
     ctx.explore(case_strategy(focus='reoffer'), n // 2, salt=4)
     ctx.explore(offline_case(), n // 3, salt=5)
+    ctx.explore(sequence_case(), n // 3, salt=6)
 
 
 MANIFEST_ENTRY = {
